@@ -1193,6 +1193,23 @@ def keep_chain(ck, mod, fn, fi, K, counts, labels, nsub, G, okd, redefs, node):
     Bs = _strip_calls(B, ('int',))
     # (np.argmax and list.index(max(..)) both return the FIRST maximum)
     v = _cls(Bs, ['_W.argmax()', '_W.argmax(axis=0)', '_W.index(max(_W))'], scope=scope)
+    if v[0] != 'match':
+        # The selected component is read off the label of ONE state: B = labels[s].  When s is a pure function of
+        # the count matrices alone (it mentions neither the labels nor the number of components) the state is chosen
+        # without looking at the component structure at all - "the component of the most populated / first / last
+        # state".  The heaviest component is an aggregate over the members of each component; the component of a state
+        # picked per state differs from it whenever several light states together outweigh the one picked.
+        from ..match import _closed_over
+        bs = match('%s[_S]' % L, Bs)
+        if bs is not None:
+            S = _strip_calls(bs['_S'], ('int',))
+            if not isinstance(S, (ast.Slice, ast.Tuple)) and _closed_over(canon(S), {counts} | ({G} if G else set())):
+                ck.bad('C11.D2.heaviest', mod, Bs, F, 'selected component: %s' % _short(Bs, 120),
+                          'the kept component is the component of ONE state (%s) chosen per state, without summing the weights of '
+                          'the members of each component: the component holding the heaviest single state is not the component '
+                          'with the largest total count when several lighter states together outweigh it; the kept component '
+                          'must be np.argmax(subgraph_pops)' % _short(S, 80))
+                return bx
     ck.decide(v, 'C11.D2.heaviest', mod, Bs, F, 'selected component: %s' % _short(Bs, 120),
               'heaviest component selected by argmax',
               'the kept component must be np.argmax(subgraph_pops) (heaviest, not largest/first)')
